@@ -435,7 +435,9 @@ class StmtMixin:
             for l in pre:
                 out.append(ind + '  ' + l)
             out.append(ind + '  if (!(%s)) break;' % v)
+            o = cx.loop_ord
             self.stmt_block(body, cx, out, ind + '  ')
+            out.append(ind + '  /*@LOOPEND %s %d@*/' % (cx.cname, o))
             out.append(ind + '}')
         self.pop_scope(cx)
 
@@ -470,7 +472,9 @@ class StmtMixin:
             for l in pre:
                 out.append(i2 + '  ' + l)
             out.append(i2 + '  if (!(%s)) break;' % v)
+            o = cx.loop_ord
             self.stmt_block(body, cx, out, i2 + '  ')
+            out.append(i2 + '  /*@LOOPEND %s %d@*/' % (cx.cname, o))
             out.append(i2 + '  %s:;' % lbl)
             for l in ipre:
                 out.append(i2 + '  ' + l)
@@ -539,7 +543,9 @@ class StmtMixin:
             out.append(ind + 'while (1)')
             out.append(ind + self.loop_marker(cx))
             out.append(ind + '{')
+            o = cx.loop_ord
             self.stmt_block(body, cx, out, ind + '  ')
+            out.append(ind + '  /*@LOOPEND %s %d@*/' % (cx.cname, o))
             out.append(ind + '  %s:;' % lbl)
             for l in pre:
                 out.append(ind + '  ' + l)
